@@ -135,24 +135,7 @@ Definition s_rows_max (st : sstate) (rows : Z) : sstate :=
 
 (* ------------------------------------------------------------------ ScrollBar *)
 
-(* ScrollBar.render from "thumb_height = ..." to "bottom_height = ..." ; floats are exact rationals
-   rounded by ScrollFloat.rn.  Returns (top_height, thumb_height, bottom_height). *)
-Definition thumb_geom (maxrow pos posmax : Z) (thumb_weight : Q) : Z * Z * Z :=
-  (* thumb_height = max(1, round(thumb_weight * maxrow)) *)
-  let thumb_height := Z.max 1 (rhe (f_mul thumb_weight (f_of_int maxrow))) in
-  (* top_weight = float(pos) / max(1, posmax) *)
-  let top_weight := f_div (f_of_int pos) (f_of_int (Z.max 1 posmax)) in
-  (* top_height = int((maxrow - thumb_height) * top_weight) *)
-  let top_height := qtrunc (f_mul (f_of_int (maxrow - thumb_height)) top_weight) in
-  (* if top_height == 0 and top_weight > 0: top_height = min(1, maxrow - thumb_height) *)
-  let top_height := if (top_height =? 0) && negb (Qle_bool top_weight 0)
-                    then Z.min 1 (maxrow - thumb_height) else top_height in
-  (* bottom_height = maxrow - thumb_height - top_height *)
-  (top_height, thumb_height, maxrow - thumb_height - top_height).
-
-(* thumb_weight = min(1.0, maxrow / max(1, ow_rows_max)) *)
-Definition thumb_weight_of (maxrow rows_max : Z) : Q :=
-  f_min1 (f_div_int_int maxrow (Z.max 1 rows_max)).
+(* thumb_geom / thumb_weight_of (the float arithmetic of ScrollBar.render) live in Model/ScrollFloat.v *)
 
 Record bstate := BState {
   inner : sstate;
